@@ -417,9 +417,13 @@ class ExcelCompiler:
         :param plugins: module paths for plugin lib functions
         """
 
-        extension = cls._filename_has_extension(filename) or next(
+        # of the files saved under that name the one written last, they are
+        # not all written by every to_file()
+        extension = cls._filename_has_extension(filename) or max(
             (ext for ext in cls.save_file_extensions
-             if os.path.exists(filename + '.' + ext)), None)
+             if os.path.exists(filename + '.' + ext)),
+            key=lambda ext: os.path.getmtime(filename + '.' + ext),
+            default=None)
 
         if not extension:
             raise ValueError(f"Unrecognized file type or compiled file not found: '{filename}'")
